@@ -2,7 +2,7 @@
 Oracle (independent of the Lean model), applied to every call of every script line:
   no panic; an error is one of the four documented ones; 0 <= Position() <= Len(); Position() never moves backwards
   and Len() never changes; a failed fixed-width read (bool/byte/int16/int32/int64) leaves Position() unchanged;
-  the call did not allocate more than 2*(remaining input)+64 bytes (flag measured by the harness);
+  the call did not allocate more than 2*(remaining input)+4096 bytes (flag measured by the harness);
   a successful ReadBytes/ReadString returns exactly the announced number of bytes taken from the input right after the
   prefix (prefix decoded here with an independent LEB128 decoder) and advances Position() by prefix + size;
   Read7BitEncodedInt consumes at most 5 bytes and does not accept a group whose fifth byte is > 15 (the documented
@@ -58,16 +58,17 @@ class C12(Spec):
     driver_args = ["c12"]
     rule = ("one case = one byte string + a sequence of read calls (ReadBool/Byte/Int16/Int32/Int64, Read7BitEncodedInt, "
             "ReadBytes, ReadString, Read(n)) on the real stream, optionally repositioned; observed per call: ok value / error "
-            "identity / panic, Position(), Len(), whether bytes allocated during the call exceed 2*remaining+64. Generated: "
+            "identity / panic, Position(), Len(), whether bytes allocated during the call exceed 2*remaining+4096. Generated: "
             "every byte string of length <= 2 x every call at position 0 (thorough: every position; plus all 2-byte prefixes x "
             "12 third bytes), continuation-bit patterns of 1..6 bytes over boundary digits, valid "
             "records of 65535/65536/65537/70000/2^20 bytes (thorough: more sizes) that are really present, at a non-zero offset and "
-            "followed by further values, structure-aware random inputs (valid, "
+            "followed by further values, length-prefixed values with colliding contents (same hash "
+            "collision sets as C11) decoded back-to-back by one reader, structure-aware random inputs (valid, "
             "truncated, over-long 7-bit groups, length prefixes above the remaining data up to 2^31-1, negative sizes, "
             "non-canonical prefixes), random call sequences on short biased inputs. distinct by script line; non-trivial = at "
             "least one call fails or reads a length-prefixed value")
     trusted_base = ["allocation meter: runtime.MemStats.TotalAlloc delta around the call (GOMAXPROCS=1, GC off); only the "
-                    "yes/no figure `> 2*remaining+64` is compared (size-class rounding makes exact byte counts unstable)",
+                    "yes/no figure `> 2*remaining+4096` is compared (size-class rounding makes exact byte counts unstable; the constant lets a fixed-size lazily allocated table pass, length-field-driven allocations are generated up to 2^31-1)",
                     "Go int (positions, lengths) modelled as unbounded naturals: streams shorter than 2^63 bytes",
                     "`make([]byte, n)` for n <= remaining input assumed not to fail"]
     assumptions = ["single goroutine uses the stream (the type is documented as not thread-safe)"]
@@ -102,7 +103,7 @@ class C12(Spec):
             if p < pos:
                 return ("out-of-bounds", "Position() moved backwards %d -> %d in %s" % (pos, p, where))
             if a != "0":
-                return ("alloc-unbounded", "%s allocated more than 2*%d+64 bytes" % (where, n - pos))
+                return ("alloc-unbounded", "%s allocated more than 2*%d+4096 bytes" % (where, n - pos))
             ok = out.startswith("ok:")
             if not ok:
                 if not out.startswith("err:") or out[4:] not in ERRORS:
